@@ -225,12 +225,15 @@ def p_c08(facts, rep, tier):
         "verify_range result) and the `root` parameter; S2 - every Ok returned by the six confirm_* functions is either behind a branch "
         "whose other edge returns KeyOutOfScope or derives from / is dominated by in_scope / find_index_for, and those predicates compare "
         "the key's prefix with the proven path; S3 - every variant of the five error types has a raising site on the corresponding "
-        "verifier's path (one frozen exception). Plus compile-fail witnesses (thorough tier) that a client cannot build a Verified* object. "
+        "verifier's path (one frozen exception); S4 - the loops that raise OpOutOfScope / OpsOutOfOrder / PathsOutOfOrder are driven by an iterator over the "
+        "whole input collection (no sub-slicing, skip, take, step_by, chunks.. in its provenance; index loops over 0..len or 1..len). Plus compile-fail witnesses (thorough tier) that a client cannot build a Verified* object. "
         "This decides that acceptance passes through the checks; it does not decide that the comparisons are the right ones nor hashing."
     )
     n1 = vguard.s1(facts, rep)
     n2 = vguard.s2(facts, rep)
     n3 = vguard.s3(facts, rep)
+    n4 = vguard.s4(facts, rep)
+    rep.floor("S4 guard loops", n4, 4)
     rep.floor("S1 obligations", n1, 4)
     rep.floor("S2 obligations", n2, 8)
     rep.floor("S3 error variants", n3, 9)
